@@ -168,7 +168,38 @@ def deductive(res, agg):
 
 
 # ---------------------------------------------------------------- bounded
+def eval_refit(c):
+    rng = np.random.default_rng(c["seed"])
+    def data(nn, pp):
+        X = rng.standard_normal((nn, pp)) * np.geomspace(1, 0.1, pp) + (1j * rng.standard_normal((nn, pp)) if c["cplx"] else 0)
+        X = X - X.mean(0)
+        return X, real.da2(X, "sample", "feature")
+    (XA, A), (XB, B) = data(c["n"], c["p"]), data(c["n"] + 6, c["p"] + 3)
+    msgs = []
+    t = Whitener(alpha=c["alpha"]) if c["kind"] == "refit-whitener" else PCA(n_modes=c["n_modes"], compute_eagerly=True)
+    t.fit(A)
+    t.inverse_transform_data(t.transform(A))                    # use both directions after the first fit
+    t.fit(B)
+    fresh = (Whitener(alpha=c["alpha"]) if c["kind"] == "refit-whitener" else PCA(n_modes=c["n_modes"], compute_eagerly=True)).fit(B)
+    back = t.inverse_transform_data(t.transform(B)).transpose("sample", "feature").values
+    if real.relerr(back, XB) > 1e-8:
+        msgs.append(f"after a refit, inverse_transform_data(transform(X)) != X ({real.relerr(back, XB):.2e})")
+    if real.relerr(t.transform(B).values, fresh.transform(B).values) > 1e-8:
+        msgs.append("after a refit, transform differs from a freshly fitted transformer")
+    if c["kind"] == "refit-whitener":
+        T = t.T.transpose("feature", "mode").values
+        Ti = t.Tinv.transpose("mode", "feature").values
+        if real.abserr(T @ Ti, np.eye(T.shape[0])) > 1e-8:
+            msgs.append(f"after a refit, T Tinv != I ({real.abserr(T @ Ti, np.eye(T.shape[0])):.2e})")
+    else:
+        if t.V.sizes["mode"] != min(XB.shape):
+            msgs.append(f"after a refit, n_modes='all' keeps {t.V.sizes['mode']} of {min(XB.shape)} modes")
+    return (not msgs), "; ".join(msgs[:3])
+
+
 def eval_case(c):
+    if c["kind"].startswith("refit-"):
+        return eval_refit(c)
     rng = np.random.default_rng(c["seed"])
     nn, pp, cond = c["n"], c["p"], c["cond"]
     U, _ = np.linalg.qr(rng.standard_normal((nn, pp)) + (1j * rng.standard_normal((nn, pp)) if c["cplx"] else 0))
@@ -260,11 +291,19 @@ def bounded_cases(tier, seed):
             for cplx in (False, True):
                 if isinstance(nm, int) and nm > min(nn, pp):
                     continue
-                cases.append(dict(kind="pca", n=nn, p=pp, cond=1e2, n_modes=nm, cplx=cplx, dask=False))
+                cases.append(dict(kind="pca", n=nn, p=pp, cond=1e2, n_modes=nm, cplx=cplx, dask=False, keep=cplx and isinstance(nm, float)))
+                if isinstance(nm, float):
+                    cases.append(dict(kind="pca", n=nn, p=pp, cond=4.0, n_modes=nm, cplx=cplx, dask=False, keep=cplx and nn == 40))
+    for i, c in enumerate(cases):
+        c["seed"] = int(seed) * 1000 + i
+    # refit histories: a transformer fitted, used in both directions, and fitted again on other data must be the transformer of the last fit
+    for kind in ("whitener", "pca"):
+        for cplx in (False, True):
+            cases.append(dict(kind="refit-" + kind, n=30, p=5, cond=1e2, alpha=0.5, n_modes="all", cplx=cplx, dask=False, keep=True))
     for i, c in enumerate(cases):
         c["seed"] = int(seed) * 1000 + i
     if tier == "quick":
-        cases = real.subsample(cases, 110, rng)
+        cases = [c for c in cases if c.get("keep")] + real.subsample([c for c in cases if not c.get("keep")], 95, rng)
     return cases
 
 
